@@ -62,6 +62,9 @@ fn classify(msg: &str) -> String {
     if first.starts_with("verif-panic") {
         return "user".into();
     }
+    if first.starts_with("verif-cap") {
+        return "capped".into();
+    }
     if first.starts_with("verif-bad-program") {
         return format!("badprog {}", first);
     }
@@ -79,8 +82,13 @@ fn payload_msg(e: &Box<dyn std::any::Any + Send>) -> String {
     }
 }
 
-pub fn run_prog(p: &'static prog::Prog, checkpoint: Option<&str>) -> Vec<String> {
+thread_local! {
+    static ITERS: std::cell::Cell<usize> = std::cell::Cell::new(0);
+}
+
+pub fn run_prog(p: &'static prog::Prog, checkpoint: Option<&str>, cap: usize) -> Vec<String> {
     OUT.with(|o| o.borrow_mut().clear());
+    ITERS.with(|c| c.set(0));
     loom::verif::set_sink(Some(Box::new(|l: &str| out(l.to_string()))));
     let mut b = loom::model::Builder::new();
     b.max_threads = p.cfg.max_threads;
@@ -96,7 +104,16 @@ pub fn run_prog(p: &'static prog::Prog, checkpoint: Option<&str>) -> Vec<String>
     b.location = false;
     b.log = false;
     let r = catch_unwind(AssertUnwindSafe(|| {
-        b.check(move || interp::run_main(p));
+        b.check(move || {
+            let n = ITERS.with(|c| {
+                c.set(c.get() + 1);
+                c.get()
+            });
+            if n > cap {
+                panic!("verif-cap");
+            }
+            interp::run_main(p)
+        });
     }));
     loom::verif::set_sink(None);
     let mut lines = OUT.with(|o| std::mem::take(&mut *o.borrow_mut()));
@@ -123,11 +140,16 @@ fn main() {
     let file = &args[2];
     let mut skip = 0usize;
     let mut checkpoint: Option<String> = None;
+    let mut cap = usize::MAX;
     let mut i = 3;
     while i < args.len() {
         match args[i].as_str() {
             "--skip" => {
                 skip = args[i + 1].parse().unwrap();
+                i += 2;
+            }
+            "--cap" => {
+                cap = args[i + 1].parse().unwrap();
                 i += 2;
             }
             "--checkpoint" => {
@@ -162,7 +184,7 @@ fn main() {
                     writeln!(o, "PROG {} {}", n, p.id).unwrap();
                     o.flush().unwrap();
                 }
-                let lines = run_prog(p, checkpoint.as_deref());
+                let lines = run_prog(p, checkpoint.as_deref(), cap);
                 let mut o = stdout.lock();
                 for l in lines {
                     writeln!(o, "{}", l).unwrap();
